@@ -19,7 +19,7 @@ MUTANTS = [
         synsets.extend(wordnet.synsets(pos=ADJ))
 """, "")]},
     {'name': 'lch-order-by-set', 'expect': ['C13-R4', 'C16-R1'],
-     'edits': [E(T, "    for ss in sorted(common):", "    for ss in common:")]},
+     'edits': [E(T, "    for ss in _sorted_common(common, from_self):", "    for ss in common:")]},
     {'name': 'roots-by-hyponyms', 'expect': 'C13-R5',
      'edits': [E(T, "    return [ss for ss in _synsets_for_pos(wordnet, pos) if not ss.hypernyms()]", "    return [ss for ss in _synsets_for_pos(wordnet, pos) if not ss.hyponyms()]")]},
     {'name': 'paths-ignore-instance-hypernym', 'expect': 'C13-R5',
@@ -28,10 +28,16 @@ MUTANTS = [
      'edits': [E(T, """    from_self = _hypernym_paths(synset, simulate_root, True)
     from_other = _hypernym_paths(other, simulate_root, True)
     common = set(flatten(from_self)).intersection(flatten(from_other))
-    return sorted(common)""", """    from_self = _hypernym_paths(synset, simulate_root, False)
+    return _sorted_common(common, from_self)""", """    from_self = _hypernym_paths(synset, simulate_root, False)
     from_other = _hypernym_paths(other, simulate_root, False)
     common = set(flatten(from_self)).intersection(flatten(from_other))
-    return sorted(common)""")]},
+    return _sorted_common(common, from_self)""")]},
+    {'name': 'benign-sorted-common-list-comprehension', 'expect': 'silent',
+     'edits': [E(T, "    return sorted(unique_list(ss for ss in flatten(paths) if ss in common))",
+                 "    ordered = unique_list(flatten(paths))\n    return sorted([ss for ss in ordered if ss in common])")]},
+    {'name': 'sorted-common-other-paths-content', 'expect': 'C13-R5',
+     'edits': [E(T, "    return sorted(unique_list(ss for ss in flatten(paths) if ss in common))",
+                 "    return sorted(unique_list(ss for ss in flatten(paths) if ss not in common))")]},
     {'name': 'shortest-path-keeps-start', 'expect': 'C13-R5',
      'edits': [E(T, "    return pathmap[key][1:]", "    return pathmap[key]")]},
     {'name': 'max_depth-default-minus-one', 'expect': 'C13-R5',
